@@ -122,6 +122,8 @@ def make(kind):
         return fm.adapters.NextTime()
     if kind == "delay":
         return fm.adapters.DelayFixed(day(1) - day(0))
+    if kind == "topull":
+        return fm.adapters.DelayToPull(steps=1)
     raise ValueError(kind)
 
 
@@ -130,13 +132,14 @@ def run_case(case):
     src = Src(case["src"], counter)
     cons1 = Cons("cons1", case["leaf"], case["unconn"])
     extra = [Cons(f"cons{k + 2}", b["leaf"], False) for k, b in enumerate(case["brs"])]
-    comps = ([src] if case["srcIn"] else []) + ([cons1] if case["leafIn"] else []) + extra
+    comps = ([src] if case["srcIn"] else []) + ([cons1] if case["leafIn"] else []) + [
+        c for c, b in zip(extra, case["brs"]) if b.get("lin", True)]
     memdir = tempfile.mkdtemp(prefix="fv-mem-")
     obs = {"res": "ok", "pushes": 0, "nlinks": 0, "linksok": True}
     try:
         composition = fm.Composition(comps, print_log=False, slot_memory_location=memdir)
         # slots exist since construction; components outside the composition are initialized by hand
-        for c in (src, cons1):
+        for c in [src, cons1] + extra:
             if c not in comps:
                 c.initialize()
         nodes = [src.outputs["Out"]]
